@@ -22,7 +22,7 @@ pub fn build_output<K, B>(value: u64, key_id: Identifier) -> (r: Box<Append<K, B
 
 // the inputs/outputs a transaction body was built from (grin_core::libtx::build), abstractly
 pub uninterp spec fn body_parts(b: u64) -> Seq<PartSpec>;
-pub open spec fn tx_parts(t: Transaction) -> Seq<PartSpec> { body_parts(t.t) }
+pub open spec fn tx_parts(t: Transaction) -> Seq<PartSpec> { body_parts(t.body.t) }
 
 // build::partial_transaction: adds exactly the given parts to the transaction, keeps its kernels (A-build)
 #[verifier::external_body]
